@@ -1,23 +1,40 @@
 (* C44 - theorems.  `run fx st0 bs` is the model of the endpoint manager after the batches bs; every
    batch is a list of OnUpdate messages followed by CompleteDeferredWork and comes with its own schedule
    (which pending entry the range over pendingWlEpUpdates produces next), so "for all bs" quantifies over
-   every history AND every iteration order.  fx = false is the code as pinned, fx = true the code with
-   fixes/C44-shadowed-endpoint-bookkeeping.patch. *)
+   every history AND every iteration order.  fx = false is the code as first pinned, fx = true the code with
+   fixes/C44-shadowed-endpoint-bookkeeping.patch (applied to the tree as bcd9d9c).
+   S = live_of (concat (map fst bs)) is the fold of the update/remove history; preferred S n is the least
+   claimant of interface name n under wlIdsAscending. *)
 From Coq Require Import List NArith Bool Lia.
 Import ListNotations.
-From Verif.C44 Require Import Model Spec MapLemmas Proofs Fixed.
+From Verif.C44 Require Import Model Spec MapLemmas Proofs Fixed Term Cover Meets.
 Open Scope N_scope.
+
+(* The loop of resolveWorkloadEndpoints terminates with an empty pending map for every iteration order
+   (pinned and fixed code): each processed entry decreases 2|pending| + |shadowed| + |active|.  So every
+   state `run fx st0 bs` is a state "after CompleteDeferredWork". *)
+Theorem c44_apply_terminates :
+  (forall fx sched s ops, pend (apply_batch fx sched s ops) = [])
+  /\ (forall fx bs, pend (run fx st0 bs) = []).
+Proof. split; [exact apply_batch_drains | intros; apply run_drained; reflexivity]. Qed.
+Print Assumptions c44_apply_terminates.
 
 (* One endpoint per interface (pinned and fixed code, every history, every iteration order): two active
    endpoints never share an interface name, activeWlIfaceNameToID names exactly the active endpoint of
-   the interface, and the chains found on an interface are the chains of that one endpoint. *)
+   the interface, the chains found on an interface are the chains of that one endpoint, and an interface has
+   a dispatch entry (from and to) exactly when it has an active endpoint. *)
 Theorem c44_one_endpoint_per_iface :
   forall fx bs, let s := run fx st0 bs in
     (forall i j wi wj, dget (act s) i = Some wi -> dget (act s) j = Some wj -> e_if wi = e_if wj -> i = j)
     /\ (forall n i, iget (o_ids (observe s)) n = Some i <-> exists w, dget (act s) i = Some w /\ e_if w = n)
     /\ (forall n c, iget (o_tw (observe s)) n = Some c ->
-                    exists i w, iget (o_ids (observe s)) n = Some i /\ dget (act s) i = Some w /\ e_if w = n /\ c = chains_of w).
-Proof. exact one_endpoint_per_iface. Qed.
+                    exists i w, iget (o_ids (observe s)) n = Some i /\ dget (act s) i = Some w /\ e_if w = n /\ c = chains_of w)
+    /\ (forall n, (nmem n (o_dfrom (observe s)) = true <-> exists i, iget (o_ids (observe s)) n = Some i)
+                  /\ (nmem n (o_dto (observe s)) = true <-> exists i, iget (o_ids (observe s)) n = Some i)).
+Proof.
+  intros. destruct (one_endpoint_per_iface fx bs) as (A & B & C).
+  split; [exact A|]. split; [exact B|]. split; [exact C|]. intros n. exact (dispatch_entries fx bs n).
+Qed.
 Print Assumptions c44_one_endpoint_per_iface.
 
 (* Routes only for administratively up endpoints (pinned and fixed code): whatever routes an interface has
@@ -30,8 +47,7 @@ Theorem c44_routes_only_admin_up :
 Proof. exact routes_only_admin_up. Qed.
 Print Assumptions c44_routes_only_admin_up.
 
-(* The full statement is FALSE of the code as pinned: there are histories (with iteration orders) after which
-   the oracle of Spec.v rejects what is programmed.
+(* ---------- the code as first pinned: the full statement is FALSE ----------
    (a) the active endpoint of interface 0 moves to interface 1; the shadowed endpoint that still claims
        interface 0 is not promoted: interface 0 carries nothing.
    (c) active and shadowed endpoint of interface 0 are removed in one batch; the removal of the active one is
@@ -44,59 +60,86 @@ Definition wit_c : list (list op * list nat) :=
   [([Upd lo (mkEp 0 true 1 [4])], []); ([Upd hi (mkEp 0 true 2 [8])], []); ([Rem lo; Rem hi], [0%nat; 0%nat])].
 
 Definition final_ok (fx : bool) (bs : list (list op * list nat)) : bool :=
-  let s := run fx st0 bs in
-  match pend s with [] => ok_obs (live_of (concat (map fst bs))) (observe s) | _ => false end.
+  ok_obs (live_of (concat (map fst bs))) (observe (run fx st0 bs)).
 
-Theorem c44_preferred_refuted :
-  exists bs, pend (run false st0 bs) = [] /\ final_ok false bs = false.
-Proof. exists wit_a. split; vm_compute; reflexivity. Qed.
+Theorem c44_preferred_refuted : exists bs, final_ok false bs = false.
+Proof. exists wit_a. vm_compute. reflexivity. Qed.
 Print Assumptions c44_preferred_refuted.
 
 Theorem c44_no_leftovers_refuted :
-  exists bs, pend (run false st0 bs) = [] /\ live_of (concat (map fst bs)) = []
+  exists bs, live_of (concat (map fst bs)) = []
              /\ o_tw (observe (run false st0 bs)) <> [] /\ o_routes (observe (run false st0 bs)) <> [].
 Proof. exists wit_c. repeat split; vm_compute; congruence. Qed.
 Print Assumptions c44_no_leftovers_refuted.
 
-(* the same histories on the repaired code *)
-Example wit_a_fixed : final_ok true wit_a = true. Proof. vm_compute. reflexivity. Qed.
-Example wit_c_fixed : final_ok true wit_c = true. Proof. vm_compute. reflexivity. Qed.
 (* order dependence of the pinned code: the other iteration order of (c) is fine *)
 Example wit_c_other_order :
   final_ok false [([Upd lo (mkEp 0 true 1 [4])], []); ([Upd hi (mkEp 0 true 2 [8])], []); ([Rem lo; Rem hi], [1%nat; 0%nat])] = true.
 Proof. vm_compute. reflexivity. Qed.
 
-(* ---------- the repaired code (fx = true), every history, every iteration order ---------- *)
+(* ---------- the repaired code (fx = true): every history, every iteration order ---------- *)
 
-(* Nothing is left for interface names no live endpoint uses: after a completed CompleteDeferredWork
-   (pending map drained) an interface name that no endpoint of the folded history S claims has no active
-   endpoint, no chains and no routes.  (c44_no_leftovers_refuted shows this is false of the pinned code.) *)
+(* After CompleteDeferredWork the active endpoint of interface name n is preferred S n:
+   - activeWlIfaceNameToID[n] is the id of the preferred endpoint (absent when nobody claims n);
+   - that endpoint is active with the data of its latest update, is live, claims n and no live claimant of n
+     is smaller in wlIdsAscending order;
+   - an interface name claimed by some live endpoint always has an active endpoint. *)
+Theorem c44_preferred_is_min_id_order_independent :
+  forall bs n, let s := run true st0 bs in let S := live_of (concat (map fst bs)) in
+    iget (o_ids (observe s)) n = option_map fst (preferred S n)
+    /\ (forall m wm, preferred S n = Some (m, wm) ->
+          dget (act s) m = Some wm /\ dget S m = Some wm /\ e_if wm = n
+          /\ (forall k wk, dget S k = Some wk -> e_if wk = n -> asc k m = false))
+    /\ ((exists k wk, dget S k = Some wk /\ e_if wk = n) -> exists i, iget (o_ids (observe s)) n = Some i).
+Proof. exact preferred_main. Qed.
+Print Assumptions c44_preferred_is_min_id_order_independent.
+
+(* Everything observable about an interface name (active id, to/from chains, routes, both dispatch entries) is
+   a function of preferred S n alone; hence two runs over the same messages with different iteration orders
+   (and even different internal states) program the same thing. *)
+Theorem c44_state_is_that_of_preferred :
+  forall bs n, let s := run true st0 bs in let S := live_of (concat (map fst bs)) in
+    iget (o_ids (observe s)) n = option_map fst (preferred S n)
+    /\ iget (o_tw (observe s)) n = option_map (fun mw => chains_of (snd mw)) (preferred S n)
+    /\ iget (o_fw (observe s)) n = option_map (fun mw => chains_of (snd mw)) (preferred S n)
+    /\ routes_at (observe s) n = match preferred S n with Some (_, wm) => routes_of wm | None => [] end
+    /\ nmem n (o_dfrom (observe s)) = match preferred S n with Some _ => true | None => false end
+    /\ nmem n (o_dto (observe s)) = match preferred S n with Some _ => true | None => false end.
+Proof. exact obs_determined. Qed.
+Print Assumptions c44_state_is_that_of_preferred.
+
+Theorem c44_order_independent :
+  forall bs bs' n, map fst bs = map fst bs' ->
+    let o := observe (run true st0 bs) in let o' := observe (run true st0 bs') in
+    iget (o_ids o) n = iget (o_ids o') n /\ iget (o_tw o) n = iget (o_tw o') n /\ iget (o_fw o) n = iget (o_fw o') n
+    /\ routes_at o n = routes_at o' n /\ nmem n (o_dfrom o) = nmem n (o_dfrom o') /\ nmem n (o_dto o) = nmem n (o_dto o').
+Proof. exact order_independent. Qed.
+Print Assumptions c44_order_independent.
+
+(* Nothing is left for interface names no live endpoint uses: no active id, no chains, no routes, no dispatch
+   entries.  (c44_no_leftovers_refuted: false of the code as first pinned.) *)
 Theorem c44_no_leftovers :
   forall bs n, let s := run true st0 bs in let S := live_of (concat (map fst bs)) in
-    pend s = [] -> (forall i w, dget S i = Some w -> e_if w <> n) ->
+    (forall i w, dget S i = Some w -> e_if w <> n) ->
     iget (o_ids (observe s)) n = None /\ iget (o_tw (observe s)) n = None /\ iget (o_fw (observe s)) n = None
-    /\ iget (o_routes (observe s)) n = None.
-Proof. exact no_leftovers. Qed.
+    /\ iget (o_routes (observe s)) n = None /\ nmem n (o_dfrom (observe s)) = false /\ nmem n (o_dto (observe s)) = false.
+Proof. exact no_leftovers_final. Qed.
 Print Assumptions c44_no_leftovers.
 
-(* PARTIAL towards "the active endpoint of i is preferred S i": whatever endpoint the repaired manager has made
-   active on an interface is a LIVE endpoint of S that claims this interface, and the chains and routes found
-   there are those of its LATEST update (no stale data), independently of the iteration order.
-   Missing for the full statement: that this endpoint is the least claimant in wlIdsAscending order and that an
-   interface claimed by some live endpoint always has an active one (the coverage invariant "every shadowed
-   endpoint has a smaller active or pending one on its interface" was not mechanised in the time available);
-   that part is checked only by the oracle of the correspondence run. *)
-Theorem c44_active_is_live_claimant_partial :
-  forall bs n i, let s := run true st0 bs in let S := live_of (concat (map fst bs)) in
-    pend s = [] -> iget (o_ids (observe s)) n = Some i ->
-    exists w, dget S i = Some w /\ e_if w = n
-              /\ iget (o_tw (observe s)) n = Some (chains_of w) /\ iget (o_fw (observe s)) n = Some (chains_of w)
-              /\ routes_at (observe s) n = routes_of w.
-Proof. exact programmed_is_live. Qed.
-Print Assumptions c44_active_is_live_claimant_partial.
+(* Model meets spec: the oracle of Spec.v (the one applied to the implementation's observations in the
+   correspondence run) accepts the repaired model after every CompleteDeferredWork of every history under every
+   iteration order. *)
+Theorem c44_model_meets_spec :
+  (forall bs, ok_obs (live_of (concat (map fst bs))) (observe (run true st0 bs)) = true)
+  /\ (forall bs, ok_case_from [] (trace st0 bs) = true).
+Proof. split; [exact meets_spec_final | exact trace_ok]. Qed.
+Print Assumptions c44_model_meets_spec.
 
-(* hypotheses are satisfiable by a non-trivial state: three endpoints, two on one interface, one renamed *)
+(* the witnesses of the refutations on the repaired code; a non-trivial reachable state *)
+Example wit_a_fixed : final_ok true wit_a = true. Proof. vm_compute. reflexivity. Qed.
+Example wit_c_fixed : final_ok true wit_c = true. Proof. vm_compute. reflexivity. Qed.
 Example ex_fixed_nontrivial :
   let bs := [([Upd lo (mkEp 0 true 1 [4]); Upd hi (mkEp 0 true 2 [8])], [1%nat]); ([Upd lo (mkEp 1 false 3 [12])], [])] in
-  pend (run true st0 bs) = [] /\ o_ids (observe (run true st0 bs)) = [(0, hi); (1, lo)].
+  o_ids (observe (run true st0 bs)) = [(0, hi); (1, lo)]
+  /\ preferred (live_of (concat (map fst bs))) 0 = Some (hi, mkEp 0 true 2 [8]).
 Proof. vm_compute. auto. Qed.
